@@ -518,8 +518,7 @@ def corrupt(rng, s, alpha=ALPHA + ' |^f'):
 
 
 class Hook:
-    """wraps create_molecule (as seen by smiles() and by create_reaction): records the record handed over, probes the
-    structural part alone (skip_calc_implicit=True: atoms, bonds, labels; no hydrogen recheck) and the real outcome"""
+    """wraps create_molecule (as seen by smiles() and by create_reaction): records the record handed over and the molecule built"""
 
     def __init__(self):
         import sys
@@ -532,12 +531,7 @@ class Hook:
         self.calls = []
 
     def wrapper(self, data, **kw):
-        snap = {'mapping': list(data['mapping']), 'atoms': copy.deepcopy(data['atoms']), 'bonds': list(data['bonds']), 'structural': None}
-        probe = {'mapping': list(data['mapping']), 'atoms': copy.deepcopy(data['atoms']), 'bonds': list(data['bonds'])}
-        try:
-            self.orig(probe, skip_calc_implicit=True)
-        except Exception as e:  # noqa
-            snap['structural'] = e
+        snap = {'mapping': list(data['mapping']), 'atoms': copy.deepcopy(data['atoms']), 'bonds': list(data['bonds'])}
         self.calls.append(snap)
         try:
             mol = self.orig(data, **kw)
@@ -570,21 +564,22 @@ def smol(snap):
         txt = ('{' + a.atomic_symbol + '|' + sopt(sz, a.isotope) + '|' + sopt(sz, a._parsed_mapping) + '|' + sz(a.charge) + '|' +
                sopt(sz, r.get('implicit_hydrogens')) + '|-}' + ('*' if r.get('is_radical') else ''))
         out.append(sz(n) + '=' + txt + '[' + '.'.join(sz(m) + ':' + sz(int(b)) for m, b in mol._bonds[n].items()) + ']')
-    return ','.join(out)
+    rz = set(mol.meta.get('chython_radicalized_atoms') or ()) if mol.meta else set()
+    mm = (mol.meta.get('chython_implicit_mismatch') or {}) if mol.meta else {}
+    hs = [sz(n) + ':' + sopt(sz, a.implicit_hydrogens) + ('*' if a.is_radical else '') + ('r' if n in rz else '') +
+          ('m' + sz(mm[n]) if n in mm else '') for n, a in mol._atoms.items()]
+    return ','.join(out) + ' # ' + ','.join(hs)
 
 
-def observe(hook, s, ignore, remap):
-    """-> (text | None when the outcome was decided by code outside the model, exception or None)"""
+def observe(hook, s, ignore, remap, **kw):
+    """-> (text, exception or None): structure, hydrogen recheck outcome of every atom, or the exception class"""
     from chython import smiles
     from chython.containers import ReactionContainer
     hook.calls = []
     try:
-        res = smiles(s, ignore=ignore, remap=remap)
+        res = smiles(s, ignore=ignore, remap=remap, **kw)
     except Exception as e:  # noqa
-        beyond = any('raised' in c and c['structural'] is None for c in hook.calls)
-        return (None if beyond else sexn(e)), e
-    if any('raised' in c and c['structural'] is None for c in hook.calls):
-        return None, None       # a molecule of a reaction dropped by the hydrogen recheck (not modelled)
+        return sexn(e), e
     done = [c for c in hook.calls if 'mol' in c]
     if isinstance(res, ReactionContainer):
         mols = list(res.reactants) + list(res.products) + list(res.reagents)
@@ -638,36 +633,74 @@ def reader_inputs(ck):
     return uniq
 
 
+HYD_ELEMENTS = ['B', 'C', 'N', 'O', 'F', 'Si', 'P', 'S', 'Cl', 'Br', 'I', 'Al', 'Fe', 'Na', 'Se', 'H']
+
+
+def hydrogen_inputs(ck):
+    """bracket atoms with every written hydrogen count / charge in typical environments (where the recheck decides)"""
+    out = []
+    for el in HYD_ELEMENTS:
+        for h in ('', 'H', 'H2', 'H3', 'H4'):
+            for q in ('', '+', '-'):
+                a = f'[{el}{h}{q}]'
+                out += [a, 'C' + a, 'C' + a + 'C', a + '=O', 'C' + a + '(C)C', 'c1cc' + a.lower().replace('h', 'H') + 'cc1' if el in 'BCNOPS' and len(el) == 1 else a + '#N']
+    out += ['c1cc[c]cc1', 'c1cc[cH]cc1', 'c1cc[n]cc1', 'c1cc[n+]cc1', '[nH]1cccc1', 'c1c[nH]cc1', 'n1cccc1', 'c1cc[b]cc1', 'c1cc[p]cc1', 'c1cc[cH2]cc1',
+            'c1cc[c-]cc1', 'c1cc[c]cc1 |^1:3|', 'c1cc[cH]cc1 |^1:3|', 'C[CH2] |^1:1|', 'C[CH2]', 'C[CH] |^1:1|', '[CH3] |^1:0|', '[CH3]', '[CH2]', '[CH]', '[C]',
+            '[CH4]', 'C[C](C)(C)C', 'C[C](C)C', '[O]', '[OH]', '[OH2]', '[OH3]', '[OH3+]', '[NH4]', '[NH4+]', '[NH3]', '[N]', 'C[N]C', 'C[NH]C', 'C[N+](C)(C)C',
+            'C[N](C)(C)C', '[Fe]', '[FeH2]', '[Na]', '[NaH]', '[Cl]', '[ClH]', '[ClH2]', '[PH5]'.replace('H5', 'H4'), '[SH2]', '[SH3+]', '[SH]', '[S]', 'O=[S](=O)(C)C',
+            '[CH3].[CH3]>>[CH3][CH3]', '[CH2]>>[CH4]', '[OH].[NH4]>>O |^1:0|', 'C[CH2]>[O]>C[CH]C |^1:1,4|', '[2H][CH2]', '[13CH3]', '[13CH5]'.replace('H5', 'H4')]
+    return sorted(set(out))
+
+
+FLAG_SETS = [  # (ignore, remap, keep_implicit, ignore_aromatic_radicals, ignore_carbon_radicals)
+    (True, False, False, True, False), (False, True, False, True, False)]
+FLAG_SETS_H = [(True, False, True, True, False), (True, False, False, False, False), (True, False, False, True, True),
+               (False, False, False, False, True), (False, False, True, False, False)]
+
+
 def corr_reader(ck):
     inputs = reader_inputs(ck)
+    hyd = [('hydrogen', s) for s in hydrogen_inputs(ck)]
     bt = Batches(ck, 'c03read')
     n = 0
-    skipped = 0
     by_text = {}
     with Hook() as hook:
-        for ignore, remap in ((True, False), (False, True)):
+        for flags in FLAG_SETS + FLAG_SETS_H:
+            ignore, remap, ki, iar, icr = flags
             items = []
-            for kind, s in inputs:
-                txt, exc = observe(hook, s, ignore, remap)
+            # the non-default switches only matter where a bracket atom is written
+            if flags in FLAG_SETS:
+                pool = inputs + (hyd if ck.tier != 'quick' else hyd[FLAG_SETS.index(flags)::2])
+            else:
+                k0 = FLAG_SETS_H.index(flags)
+                step = 5 if ck.tier == 'quick' else 1
+                pool = hyd[k0 % step::step] + [(k, s) for k, s in inputs if '[' in s and k in ('generated', 'fixed', 'reaction', 'generated-cx')][: (120 if ck.tier == 'quick' else 1500)]
+            for kind, s in pool:
+                txt, exc = observe(hook, s, ignore, remap, keep_implicit=ki, ignore_aromatic_radicals=iar, ignore_carbon_radicals=icr)
                 if exc is not None and not isinstance(exc, ValueError):
-                    report_crash(ck, s, {'ignore': ignore, 'remap': remap}, exc)
-                if txt is None:
-                    skipped += 1
-                    ck.count('reader:decided-by-hydrogen-recheck(not compared)')
-                    continue
+                    report_crash(ck, s, {'ignore': ignore, 'remap': remap, 'keep_implicit': ki, 'ignore_aromatic_radicals': iar,
+                                         'ignore_carbon_radicals': icr}, exc)
                 items.append((s, txt))
                 n += 1
-                ck.case(('read', s, ignore, remap), nontrivial=not txt.startswith('!'))
+                ck.case(('read', s, flags), nontrivial=not txt.startswith('!'))
                 ck.count(f'reader:{kind}:' + ('Ok' if not txt.startswith('!') else txt))
-            by_text[(ignore, remap)] = items
-            # long corpus strings in small batches, the rest in batches of 40
-            bt.add_chunked(f'b_read {cbool(ignore)} {cbool(remap)}', items, cstr, chunk=25)
+                if 'm' in txt.split(' # ')[-1] or 'r' in txt.split(' # ')[-1]:
+                    ck.count('reader:recheck decided (mismatch / radicalized)')
+            by_text[flags] = items
+            bt.add_chunked(f'b_readh {cbool(ignore)} {cbool(ki)} {cbool(iar)} {cbool(icr)} {cbool(remap)}', items, cstr, chunk=25)
+    skipped = 0
     ck.extra['reader_strings'] = n
     ck.extra['reader_not_compared'] = skipped
-    ck.sample({'smiles': 'C1CC1[13CH3:7].[Na+] |^1:0|', 'text': by_text[(True, False)][0][1] if by_text[(True, False)] else ''})
-    ok = bt.run(f'smiles() (record handed to create_molecule + atoms, neighbour order, bond orders built; or exception class) == Coq Reader.read '
-                f'on {n} (text, flags) cases: all short texts, fixed boundary cases, corpus, grammar-generated, reactions with CX blocks, single-edit corruptions',
-                single=cstr)
+    ck.sample({'smiles': by_text[FLAG_SETS[0]][-1][0], 'text': by_text[FLAG_SETS[0]][-1][1]})
+    saved = coqcases_imports[0]
+    coqcases_imports[0] = 'Tokenize Parser Reader Recheck'
+    try:
+        ok = bt.run(f'smiles() (record handed to create_molecule; atoms, neighbour order, bond orders built; final implicit hydrogens, radical flags, '
+                    f'radicalized atoms and hydrogen mismatches of the recheck; or exception class) == Coq Recheck.read_full on {n} (text, flags) cases: '
+                    f'all short texts, fixed boundary cases, corpus, grammar-generated, reactions with CX blocks, single-edit corruptions, bracket atoms with '
+                    f'every hydrogen count / charge of 16 elements in 6 environments, 7 flag settings', single=cstr)
+    finally:
+        coqcases_imports[0] = saved
     if not ok:
         # directed search on and around what disagreed
         bad = [c for b in ck.broken for c in b[2]]
